@@ -8,7 +8,7 @@ import numpy as np
 
 from . import models, observe
 from .spies import Recorder, RHSFault, Interrupt
-from .faults import InterruptAt, SourceIOFault, YamlIOFault
+from .faults import InterruptAt, SourceIOFault, YamlIOFault, YamlReadFault
 
 
 def _kw(kw):
@@ -73,7 +73,7 @@ class World:
     def op_construct(self, op):
         spec = op['spec']
         pool = self.pools.setdefault(op['pool'], {}) if op.get('pool') else None
-        c = models.build(spec, pool=pool, fname=op.get('fname'))
+        c = self._with_fault(op.get('fault'), lambda: models.build(spec, pool=pool, fname=op.get('fname')))
         self.objs[op['obj']] = c
         return {'status': 'ok'}
 
@@ -92,6 +92,8 @@ class World:
         if fault['kind'] == 'io':
             return SourceIOFault(fault.get('target', 'src_write'), fault.get('nth', 1), fault.get('errno', 'ENOSPC'),
                                  fault.get('short', False))
+        if fault['kind'] == 'yaml_read':
+            return YamlReadFault(fault.get('nth', 1), fault.get('errno', 'EIO'))
         if fault['kind'] == 'yaml_io':
             return YamlIOFault(fault.get('nth', 1), fault.get('errno', 'ENOSPC'), fault.get('short', False))
         return None
